@@ -82,6 +82,7 @@ def twin_table():
         mp = os.path.join(d, "meta.json")
         if os.path.exists(mp):
             m0 = json.load(open(mp))
+            m0 = m0.get('first_run', m0)     # round 2: the first run was recorded before the twin was filed
             first = ("false alarm " + ",".join(m0.get("false_alarms", []))) if m0.get("false_alarms") else ("not understood " + ",".join(m0.get("incomplete_in", []))) if m0.get("incomplete_in") else "silent"
         now = ("**false alarm** " + ",".join(r["fa"])) if r["fa"] else ("not understood: " + ", ".join(sorted(set(r["rules"]))[:2])) if r["inc"] else "silent"
         out.append(f"| {r['name']} | {desc} | {first} | {now} |")
